@@ -552,6 +552,102 @@ func c03units(tier string) []mc.Unit {
 		r.AddNontrivial(cnt)
 		r.Bound("molecule-x-alphabet", "4 molecule types x 6 alphabets x 5 lengths")
 	}})
+	// every subset of the five sub-fields of a reference, in each of two references
+	us = append(us, mc.Unit{Name: "reference-subsets", Serial: true, Weight: 30, Run: func(r *mc.Recorder) {
+		memo := &c3memo{first: map[string]string{}}
+		var cnt int64
+		mk := func(i, mask int) poly.Reference {
+			ref := poly.Reference{Index: strconv.Itoa(i), Range: "(bases 1 to 70)"}
+			if mask&1 != 0 {
+				ref.Authors = fmt.Sprintf("Author%d,A. and Other,B.", i)
+			}
+			if mask&2 != 0 {
+				ref.Title = fmt.Sprintf("Title number %d of the reference", i)
+			}
+			if mask&4 != 0 {
+				ref.Journal = fmt.Sprintf("J. Verif. %d (1), 1-2 (2000)", i)
+			}
+			if mask&8 != 0 {
+				ref.PubMed = fmt.Sprint(7000 + i)
+			}
+			if mask&16 != 0 {
+				ref.Remark = fmt.Sprintf("Erratum:[J. Verif. 2000;%d(2):99]", i)
+			}
+			return ref
+		}
+		for m1 := 0; m1 < 32; m1++ {
+			for m2 := 0; m2 < 32; m2++ {
+				var s poly.Sequence
+				s.Sequence = gbSeq(70, 6)
+				s.Meta.Locus = poly.Locus{Name: "built1", SequenceLength: "70", MoleculeType: "DNA", GenbankDivision: "SYN", ModificationDate: "01-JAN-2000", Linear: true}
+				s.Meta.Definition, s.Meta.Accession, s.Meta.Version, s.Meta.Keywords = "Assembled record.", "XY000001", "XY000001.1", "."
+				s.Meta.Source, s.Meta.Organism = "synthetic construct", "synthetic construct"
+				s.Meta.Other = map[string]string{}
+				s.Meta.References = []poly.Reference{mk(1, m1), mk(2, m2)}
+				f := poly.Feature{Type: "misc_feature", Attributes: map[string]string{"note": "n"}}
+				f.SequenceLocation = poly.Location{Start: 0, End: 10}
+				s.AddFeature(&f)
+				key := fmt.Sprintf("two references with field sets %05b and %05b (bits: Authors, Title, Journal, PubMed, Remark)", m1, m2)
+				c3judge(r, memo, key, "assembled record: "+key, []string{"reference-subset"}, s)
+				cnt++
+			}
+		}
+		r.Eval(cnt)
+		r.AddStates(cnt)
+		r.AddTransitions(cnt)
+		r.AddNontrivial(cnt)
+		r.Bound("reference-subsets", "all 32 x 32 subsets of Authors, Title, Journal, PubMed, Remark in two references")
+	}})
+	// every printable character at the points where Build wraps a metadata value: all fill lengths 30..80 before it
+	us = append(us, mc.Unit{Name: "wrap-boundaries", Serial: true, Weight: 60, Run: func(r *mc.Recorder) {
+		memo := &c3memo{first: map[string]string{}}
+		var cnt int64
+		for ch := 0x21; ch <= 0x7e; ch++ {
+			for fill := 30; fill <= 80; fill++ {
+				if ch != '-' && ch != '/' && ch != '=' && ch != '.' && ch != ',' && ch != ';' && ch != ':' && ch != '"' && fill%7 != 0 {
+					continue // every fill for the punctuation marks that writers and readers treat specially; every 7th otherwise
+				}
+				for form := 0; form < 2; form++ {
+					w := string(rune(ch))
+					if form == 1 {
+						w = " " + w
+					}
+					text := "start " + strings.Repeat("x", fill) + w + " next words follow here and more of them to wrap again " + strings.Repeat("y", 40) + " end"
+					for field := 0; field < 3; field++ {
+						var s poly.Sequence
+						s.Sequence = gbSeq(70, 6)
+						s.Meta.Locus = poly.Locus{Name: "built1", SequenceLength: "70", MoleculeType: "DNA", GenbankDivision: "SYN", ModificationDate: "01-JAN-2000", Linear: true}
+						s.Meta.Definition, s.Meta.Accession, s.Meta.Version, s.Meta.Keywords = "Assembled record.", "XY000001", "XY000001.1", "."
+						s.Meta.Source, s.Meta.Organism = "synthetic construct", "synthetic construct"
+						s.Meta.Other = map[string]string{}
+						s.Meta.References = []poly.Reference{{Index: "1", Range: "(bases 1 to 70)", Authors: "Smith,J.", Title: "A title", Journal: "J. Verif. 1 (1), 1-2 (2000)"}}
+						switch field {
+						case 0:
+							s.Meta.Definition = text
+						case 1:
+							s.Meta.Other["COMMENT"] = text
+						case 2:
+							s.Meta.References[0].Title = text
+						}
+						f := poly.Feature{Type: "misc_feature", Attributes: map[string]string{"note": "n"}}
+						f.SequenceLocation = poly.Location{Start: 0, End: 10}
+						s.AddFeature(&f)
+						key := fmt.Sprintf("character %q (form %d) after %d filler letters in %s", rune(ch), form, fill, []string{"DEFINITION", "COMMENT", "a reference title"}[field])
+						c3judge(r, memo, key, "assembled record: "+key, []string{"wrap-boundary"}, s)
+						cnt++
+					}
+				}
+			}
+			if r.Enough() {
+				break
+			}
+		}
+		r.Eval(cnt)
+		r.AddStates(cnt)
+		r.AddTransitions(cnt)
+		r.AddNontrivial(cnt)
+		r.Bound("wrap-boundaries", "every printable character, glued to a word or alone, after every number of filler letters 30..80 (every 7th for letters and digits) in DEFINITION, COMMENT and a reference title")
+	}})
 	// every feature count 0..70 and counts around 100, 128, 256, 1000, under several GOMAXPROCS settings
 	us = append(us, mc.Unit{Name: "feature-counts", Serial: true, Weight: 60, Run: func(r *mc.Recorder) {
 		var cnt int64
